@@ -487,6 +487,11 @@ def exec_step(step, sess, chains, audit):
                 targets = [c.tasks[n] for n in targets]
             if len(targets) == 1 and step.get('scalar'):
                 targets = targets[0]
+            elif step.get('container'):
+                # any iterable of names / task objects may be given, also one that can be walked only once
+                items = list(targets)
+                targets = {'tuple': lambda: tuple(items), 'set': lambda: set(items), 'generator': lambda: (x for x in items),
+                           'map': lambda: map(lambda x: x, items), 'dict': lambda: dict.fromkeys(items)}[step['container']]()
             kw = {}
             if step.get('recompute'):
                 kw['recompute'] = True
